@@ -89,29 +89,56 @@ example : ¬ Touches .ctx (.op (.lookup .parseDate (.str "2024-01-01") (.date 19
 /-! ## 3. Deterministic recipes: identical output whatever ran before -/
 
 /-- **frame_deterministic**: a program that creates no unique-id generator, draws nothing and reads
-    no clock, and whose cached calls are pure on keys satisfying `P`, produces the same output in any two
-    process states whose caches are consistent with those pure functions — the caches may differ
-    arbitrarily (hits instead of misses, evictions, other recency order). -/
-theorem frame_deterministic (F : CacheId → Key → Val) (P : Key → Bool) (hcomp : Compat F P)
-    (p : Prog) (hd : Det F P false p) (a b : Proc) (ha : Consistent F P a) (hb : Consistent F P b) :
+    no clock, whose cached calls are pure on keys satisfying `P` and which looks at the returned objects
+    only through the view `V`, produces the same output in any two process states whose caches are
+    consistent with those pure functions — the caches may differ arbitrarily (hits instead of misses,
+    evictions, other recency order, entries stored under another Python-equal key). -/
+theorem frame_deterministic (F : CacheId → Key → Val) (P : CacheId → Key → Bool) (V : CacheId → Val → Val)
+    (hcomp : Compat F P V) (p : Prog) (hd : Det F P V false p) (a b : Proc)
+    (ha : Consistent F P a) (hb : Consistent F P b) :
     (run { proc := a, dirs := [] } p).out = (run { proc := b, dirs := [] } p).out :=
-  det_core F P hcomp hd _ _ ha hb rfl (by intro h; cases h)
+  det_core F P V hcomp hd _ _ ha hb rfl (by intro h; cases h)
 
-/-- keys that are not aware datetimes are compared by identity: *every* function is compatible -/
-theorem compat_not_aware (F : CacheId → Key → Val) : Compat F (fun k => !k.isAware) := by
+/-- keys that are not aware datetimes are compared by identity: *every* function is compatible, under
+    the identity view -/
+theorem compat_not_aware (F : CacheId → Key → Val) : Compat F (fun _ k => !k.isAware) (fun _ => id) := by
   intro c a b hb he
   cases b <;> cases a <;> simp_all [Key.pyEq, Key.isAware]
 
+/-- since commit f914bf1 `datetime:` with the default zone yields the same value for every object the
+    cache may serve for one instant: converting (`astimezone`) and relabelling a UTC value coincide -/
+theorem datetime_default_zone_alias_free (i o o' : Int) :
+    datetimeFn (some 0) (.aware i o) = datetimeFn (some 0) (.aware i o') := by
+  simp only [datetimeFn]
+  split <;> split <;> simp_all <;> omega
+
+/-- today's views and key sets are compatible with every library behaviour `F` that returns aware
+    datetimes unchanged (which is what `parse_datetimespec` does: `specF`) -/
+theorem compat_std (F : CacheId → Key → Val)
+    (hspec : ∀ i o, F .parseDatetimespec (.aware i o) = .aware i o) : Compat F stdP stdV := by
+  intro c a b hb he
+  cases c with
+  | parseDatetimespec =>
+    refine ⟨rfl, ?_⟩
+    cases b <;> cases a <;> simp_all [Key.pyEq]
+    rename_i i o j o'
+    simp only [stdV]
+    exact datetime_default_zone_alias_free _ _ _
+  | parseDate => cases b <;> cases a <;> simp_all [Key.pyEq, Key.isAware, stdP, stdV]
+  | randomizer => cases b <;> cases a <;> simp_all [Key.pyEq, Key.isAware, stdP, stdV]
+  | maskForKey => cases b <;> cases a <;> simp_all [Key.pyEq, Key.isAware, stdP, stdV]
+  | importModule => cases b <;> cases a <;> simp_all [Key.pyEq, Key.isAware, stdP, stdV]
+
 /-- the fresh process is consistent with every `F` -/
-theorem fresh_consistent (F : CacheId → Key → Val) (P : Key → Bool) : Consistent F P fresh.proc := by
+theorem fresh_consistent (F : CacheId → Key → Val) (P : CacheId → Key → Bool) : Consistent F P fresh.proc := by
   intro c e he; simp [fresh] at he
 
 /-- consistency survives any tame run, completed or failed -/
-theorem consistent_after_run (F : CacheId → Key → Val) (P : Key → Bool) (p : Prog) (ht : Tame F P p)
+theorem consistent_after_run (F : CacheId → Key → Val) (P : CacheId → Key → Bool) (p : Prog) (ht : Tame F P p)
     (st : St) (h : Consistent F P st.proc) : Consistent F P (run st p).st.proc :=
   consistent_run F P p ht st h
 
-theorem consistent_runAll (F : CacheId → Key → Val) (P : Key → Bool) (ps : List Prog)
+theorem consistent_runAll (F : CacheId → Key → Val) (P : CacheId → Key → Bool) (ps : List Prog)
     (ht : ∀ p ∈ ps, Tame F P p) : ∀ st : St, Consistent F P st.proc → Consistent F P (runAll st ps).proc := by
   induction ps with
   | nil => intro st h; exact h
@@ -126,27 +153,44 @@ theorem consistent_runAll (F : CacheId → Key → Val) (P : Key → Bool) (ps :
     produces exactly the output it produces in a fresh process.  The only requirement on the
     predecessors is that the functions behind the caches are pure on the keys `P` that deterministic
     programs use. -/
-theorem runs_independent (F : CacheId → Key → Val) (P : Key → Bool) (hcomp : Compat F P)
-    (ps : List Prog) (ht : ∀ q ∈ ps, Tame F P q) (p : Prog) (hd : Det F P false p) :
+theorem runs_independent (F : CacheId → Key → Val) (P : CacheId → Key → Bool) (V : CacheId → Val → Val)
+    (hcomp : Compat F P V) (ps : List Prog) (ht : ∀ q ∈ ps, Tame F P q) (p : Prog) (hd : Det F P V false p) :
     (run { proc := (runAll fresh ps).proc, dirs := [] } p).out = (run fresh p).out :=
-  frame_deterministic F P hcomp p hd _ _ (consistent_runAll F P ps ht fresh (fresh_consistent F P))
+  frame_deterministic F P V hcomp p hd _ _ (consistent_runAll F P ps ht fresh (fresh_consistent F P))
     (fresh_consistent F P)
 
 /-- **failed_run_does_not_poison**: the special case the property statement names — one failed run,
     then the recipe. -/
-theorem failed_run_does_not_poison (F : CacheId → Key → Val) (P : Key → Bool) (hcomp : Compat F P)
-    (bad : Prog) (hbad : Tame F P bad) (_hfails : (run fresh bad).ok = false) (p : Prog) (hd : Det F P false p) :
+theorem failed_run_does_not_poison (F : CacheId → Key → Val) (P : CacheId → Key → Bool) (V : CacheId → Val → Val)
+    (hcomp : Compat F P V) (bad : Prog) (hbad : Tame F P bad) (_hfails : (run fresh bad).ok = false)
+    (p : Prog) (hd : Det F P V false p) :
     (run { proc := (run fresh bad).st.proc, dirs := [] } p).out = (run fresh p).out := by
-  have := runs_independent F P hcomp [bad] (by intro q hq; simp at hq; subst hq; exact hbad) p hd
+  have := runs_independent F P V hcomp [bad] (by intro q hq; simp at hq; subst hq; exact hbad) p hd
   simpa [runAll, fresh] using this
 
 /-- for recipes whose cached calls never see an aware datetime no assumption on the library functions
-    is left: *any* `F` will do -/
+    is left: *any* `F` will do, and the program may inspect the returned objects as it likes -/
 theorem runs_independent_not_aware (F : CacheId → Key → Val)
-    (ps : List Prog) (ht : ∀ q ∈ ps, Tame F (fun k => !k.isAware) q) (p : Prog)
-    (hd : Det F (fun k => !k.isAware) false p) :
+    (ps : List Prog) (ht : ∀ q ∈ ps, Tame F (fun _ k => !k.isAware) q) (p : Prog)
+    (hd : Det F (fun _ k => !k.isAware) (fun _ => id) false p) :
     (run { proc := (runAll fresh ps).proc, dirs := [] } p).out = (run fresh p).out :=
-  runs_independent F _ (compat_not_aware F) ps ht p hd
+  runs_independent F _ _ (compat_not_aware F) ps ht p hd
+
+/-- **runs_independent_std** — the strength that is true for the code since commit f914bf1: aware
+    datetimes of any offset may go through `parse_datetimespec` as long as the result is used the way
+    `datetime:` (default zone) uses it; only `parse_date` (`date:`, `date_between`, Counters, Schedule)
+    must not be keyed by aware datetimes. -/
+theorem runs_independent_std (F : CacheId → Key → Val)
+    (hspec : ∀ i o, F .parseDatetimespec (.aware i o) = .aware i o)
+    (ps : List Prog) (ht : ∀ q ∈ ps, Tame F stdP q) (p : Prog) (hd : Det F stdP stdV false p) :
+    (run { proc := (runAll fresh ps).proc, dirs := [] } p).out = (run fresh p).out :=
+  runs_independent F stdP stdV (compat_std F hspec) ps ht p hd
+
+/-- a continuation that may look at the whole object (identity view) is invariant -/
+theorem view_id_invariant {V : CacheId → Val → Val} {c : CacheId} (hV : ∀ v, V c v = v) (kont : Obs → Prog)
+    (o o' : Obs) (h : o.view (V c) = o'.view (V c)) : kont o = kont o' := by
+  have e : ∀ x : Obs, x.view (V c) = x := by intro x; cases x <;> simp [Obs.view, hV]
+  rw [e, e] at h; rw [h]
 
 /-- non-vacuity: a deterministic program that looks a date string up, enters and leaves a dataset
     directory and emits what it got -/
@@ -156,74 +200,117 @@ def demoDet (F : CacheId → Key → Val) : Prog :=
       .op (.enterDir "/data") (fun _ => .op .leaveDir (fun _ =>
         .emit (match o with | .val (.date _) => "date" | _ => "other") .done))))
 
-example (F : CacheId → Key → Val) : Det F (fun k => !k.isAware) false (demoDet F) :=
-  .setHistory (fun _ => .lookup rfl rfl (fun _ => .enterDir (fun _ => .leaveDir (fun _ => .emit .done))))
+example (F : CacheId → Key → Val) : Det F stdP stdV false (demoDet F) :=
+  .setHistory (fun _ => .lookup rfl rfl (view_id_invariant (fun _ => rfl) _)
+    (fun _ => .enterDir (fun _ => .leaveDir (fun _ => .emit .done))))
 
-/-! ### the full-strength statement is false for the code (defects D19b, D19d; interpretation D19) -/
+/-- non-vacuity of the view: `datetime: <aware datetime>` as the code evaluates it — look the argument
+    up, convert to the default zone, emit the result -/
+def datetimeField (i o : Int) : Prog :=
+  .op (.lookup .parseDatetimespec (.aware i o) (.aware i o)) (fun obs =>
+    match obs.view (datetimeFn (some 0)) with
+    | .val (.aware j _) => .emit (if j = i then "the written instant" else "another instant") .done
+    | _ => .emit "?" .done)
 
-/-- what `datetime: <aware datetime>` does: look the argument up, emit the offset of what came back -/
+theorem datetimeField_det (i o : Int) : Det specFD stdP stdV false (datetimeField i o) := by
+  refine .lookup rfl rfl ?_ ?_
+  · intro a b h
+    show (match a.view (datetimeFn (some 0)) with | .val (.aware j _) => _ | _ => _)
+       = (match b.view (datetimeFn (some 0)) with | .val (.aware j _) => _ | _ => _)
+    have : a.view (stdV .parseDatetimespec) = a.view (datetimeFn (some 0)) := rfl
+    rw [← this, h]; rfl
+  · intro obs
+    show Det specFD stdP stdV false (match obs.view (datetimeFn (some 0)) with | .val (.aware j _) => _ | _ => _)
+    split <;> exact .emit .done
+
+/-- hence: whatever offsets earlier runs used for the same instant, `datetime:` emits the written instant -/
+theorem datetime_field_independent (i o : Int) (ps : List Prog) (ht : ∀ q ∈ ps, Tame specFD stdP q) :
+    (run { proc := (runAll fresh ps).proc, dirs := [] } (datetimeField i o)).out = (run fresh (datetimeField i o)).out :=
+  runs_independent_std specFD (fun _ _ => rfl) ps ht _ (datetimeField_det i o)
+
+/-! ### what is still false for the code (defects D19b — now only through `parse_date` and non-default
+    zones —, D19d; interpretation D19) -/
+
+/-- a continuation that shows what came back -/
 def showOffset : Obs → Prog
   | .val (.aware _ o) => .emit (if o = 0 then "+00:00" else "other offset") .done
   | .val (.date d) => .emit (if d = 1 then "day 1" else "other day") .done
   | _ => .emit "?" .done
 
-/-- previous run: `datetime: 1970-01-01 00:00:00-12:00` (instant 720 min, offset −720) -/
-def primeDt : Prog := .op (.lookup .parseDatetimespec (.aware 720 (-720)) (.aware 720 (-720))) showOffset
-/-- this run: `datetime: 1970-01-01 12:00:00+00:00` (the same instant, offset 0) -/
-def probeDt : Prog := .op (.lookup .parseDatetimespec (.aware 720 0) (.aware 720 0)) showOffset
+/-- previous run: `date: 1970-01-01 20:00:00-12:00` (instant 1920 min, offset −720: local day 0) -/
+def primeDay : Prog := .op (.lookup .parseDate (.aware 1920 (-720)) (specFD .parseDate (.aware 1920 (-720)))) showOffset
+/-- this run: `date: 1970-01-02 08:00:00+00:00` (the same instant, offset 0: local day 1) -/
+def probeDay : Prog := .op (.lookup .parseDate (.aware 1920 0) (specFD .parseDate (.aware 1920 0))) showOffset
 
-/-- **frame_deterministic_refuted** (D19b): with `P = everything` the statement of
-    `runs_independent` is false although both programs are deterministic and the cached function is the
-    one the source defines (`specFD`): after `primeDt` the probe gets the cached `-12:00` object. -/
+/-- **frame_deterministic_refuted** (D19b, as it reproduces on the current tree): with `P = every key`
+    the statement of `runs_independent` is false although both programs are deterministic and the
+    cached function is the one the source defines (`specFD`): after `primeDay` the probe is served the
+    calendar day of the `-12:00` spelling. -/
 theorem frame_deterministic_refuted :
-    Det specFD (fun _ => true) false primeDt ∧ Det specFD (fun _ => true) false probeDt
-    ∧ (run fresh probeDt).out = (["+00:00"], true)
-    ∧ (run { proc := (runAll fresh [primeDt]).proc, dirs := [] } probeDt).out = (["other offset"], true) := by
-  refine ⟨.lookup rfl rfl ?_, .lookup rfl rfl ?_, by decide, by decide⟩
+    Det specFD (fun _ _ => true) stdV false primeDay ∧ Det specFD (fun _ _ => true) stdV false probeDay
+    ∧ (run fresh probeDay).out = (["day 1"], true)
+    ∧ (run { proc := (runAll fresh [primeDay]).proc, dirs := [] } probeDay).out = (["other day"], true) := by
+  refine ⟨.lookup rfl rfl (view_id_invariant (fun _ => rfl) _) ?_,
+          .lookup rfl rfl (view_id_invariant (fun _ => rfl) _) ?_, by decide, by decide⟩
   · intro obs; unfold showOffset; split <;> exact .emit .done
   · intro obs; unfold showOffset; split <;> exact .emit .done
 
-/-- FULL STATEMENT of the property for deterministic programs — *false for the code as it is*:
+/-- FULL STATEMENT of the property for deterministic programs — *still false for the code as it is*:
 
-      ∀ ps p, (∀ q ∈ ps, Det specFD (fun _ => true) false q) → Det specFD (fun _ => true) false p →
+      ∀ ps p, (∀ q ∈ ps, Det specFD (fun _ _ => true) stdV false q) → Det specFD (fun _ _ => true) stdV false p →
         (run { proc := (runAll fresh ps).proc, dirs := [] } p).out = (run fresh p).out
 
-    (`specFD` = what `parse_date` / `parse_datetimespec` compute on structured keys; `P` = every key.)
-    **runs_independent_refuted**: the negation, by the witness of `frame_deterministic_refuted`. -/
+    (`specFD` = what `parse_date` / `parse_datetimespec` compute on structured keys; `P` = every key;
+    `stdV` = today's views.)  **runs_independent_refuted**: the negation, by the witness above. -/
 theorem runs_independent_refuted :
-    ¬ (∀ (ps : List Prog) (p : Prog), (∀ q ∈ ps, Det specFD (fun _ => true) false q) →
-        Det specFD (fun _ => true) false p →
+    ¬ (∀ (ps : List Prog) (p : Prog), (∀ q ∈ ps, Det specFD (fun _ _ => true) stdV false q) →
+        Det specFD (fun _ _ => true) stdV false p →
         (run { proc := (runAll fresh ps).proc, dirs := [] } p).out = (run fresh p).out) := by
   intro h
   obtain ⟨h1, h2, h3, h4⟩ := frame_deterministic_refuted
-  have := h [primeDt] probeDt (by intro q hq; simp at hq; subst hq; exact h1) h2
+  have := h [primeDay] probeDay (by intro q hq; simp at hq; subst hq; exact h1) h2
   rw [h3, h4] at this
   exact absurd this (by decide)
 
-/-- **runs_independent_partial**: the statement holds under the explicit, decidable restriction that
-    no cached call of a deterministic program (or of its predecessors, for the keys they share) is
-    keyed by an aware datetime — then for *every* library behaviour `F`. -/
+/-- **runs_independent_partial**: the statement holds under the explicit, decidable restriction `stdP`
+    (no aware datetime as a key of `parse_date`, `randomizer`, `mask_for_key`, the import cache) — the
+    restriction on `parse_datetimespec` that was needed before commit f914bf1 is gone. -/
 theorem runs_independent_partial (F : CacheId → Key → Val)
-    (ps : List Prog) (ht : ∀ q ∈ ps, Tame F (fun k => !k.isAware) q) (p : Prog)
-    (hd : Det F (fun k => !k.isAware) false p) :
+    (hspec : ∀ i o, F .parseDatetimespec (.aware i o) = .aware i o)
+    (ps : List Prog) (ht : ∀ q ∈ ps, Tame F stdP q) (p : Prog) (hd : Det F stdP stdV false p) :
     (run { proc := (runAll fresh ps).proc, dirs := [] } p).out = (run fresh p).out :=
-  runs_independent_not_aware F ps ht p hd
+  runs_independent_std F hspec ps ht p hd
 
-/-- the cause: the function behind the cache tells Python-equal keys apart -/
-theorem specFD_not_compat : ¬ Compat specFD (fun _ => true) := by
+/-- the cause: `parse_date` tells Python-equal keys apart (the calendar day depends on the offset) -/
+theorem specFD_not_compat : ¬ Compat specFD (fun _ _ => true) stdV := by
   intro h
-  have := (h .parseDatetimespec (.aware 720 (-720)) (.aware 720 0) rfl (by decide)).2
+  have := (h .parseDate (.aware 1920 (-720)) (.aware 1920 0) rfl (by decide)).2
   exact absurd this (by decide)
 
-/-- the same through `parse_date` (`date: 1970-01-01 20:00:00-12:00`, then `date: 1970-01-02 08:00:00+00:00`):
-    the calendar day of the *first* spelling is served -/
+/-- …while under `stdP` the source's own functions are compatible -/
+theorem specFD_compat_std : Compat specFD stdP stdV := compat_std specFD (fun _ _ => rfl)
+
+/-- a fact about the cache *cell* (not about run outputs any more): the `parse_datetimespec` cache still
+    serves the object stored under another Python-equal key — here the `-12:00` object for the `+00:00`
+    argument -/
+theorem parse_datetimespec_cache_aliases :
+    (step { proc := (runAll fresh [.op (.lookup .parseDatetimespec (.aware 720 (-720)) (.aware 720 (-720))) (fun _ => .done)]).proc,
+            dirs := [] }
+          (.lookup .parseDatetimespec (.aware 720 0) (.aware 720 0))).2 = .val (.aware 720 (-720)) := by
+  decide
+
+/-- …which stays observable through `datetime:` with a non-default zone (`timezone: +05:00` relabels a
+    UTC value but converts a `-12:00` value) or with `timezone: False` -/
+theorem datetime_other_zone_aliasing :
+    datetimeFn (some 300) (.aware 720 (-720)) ≠ datetimeFn (some 300) (.aware 720 0)
+    ∧ datetimeFn none (.aware 720 (-720)) ≠ datetimeFn none (.aware 720 0) := by
+  constructor <;> decide
+
+/-- the same through `parse_date` stated on outputs (`date: 1970-01-01 20:00:00-12:00`, then
+    `date: 1970-01-02 08:00:00+00:00`): the calendar day of the *first* spelling is served -/
 theorem parse_date_aliasing :
-    (run fresh (.op (.lookup .parseDate (.aware 1920 0) (specFD .parseDate (.aware 1920 0))) showOffset)).out
-      = (["day 1"], true)
-    ∧ (run { proc := (runAll fresh [.op (.lookup .parseDate (.aware 1920 (-720)) (specFD .parseDate (.aware 1920 (-720)))) showOffset]).proc,
-             dirs := [] }
-        (.op (.lookup .parseDate (.aware 1920 0) (specFD .parseDate (.aware 1920 0))) showOffset)).out
-      = (["other day"], true) := by
+    (run fresh probeDay).out = (["day 1"], true)
+    ∧ (run { proc := (runAll fresh [primeDay]).proc, dirs := [] } probeDay).out = (["other day"], true) := by
   constructor <;> decide
 
 /-- **import_cache_aliasing** (D19d): `sys.modules` is keyed by the module *name*, while a local plugin
@@ -329,5 +416,32 @@ theorem cache_size_bounded (m : Nat) (hm : 1 ≤ m) (c : Cache) (k : Key) (v : V
 theorem cache_returns_stored_or_computed (ms : Option Nat) (c : Cache) (k : Key) (v : Val) :
     (∃ e ∈ c.entries, e.1.pyEq k = true ∧ (c.lookup ms k v).1 = e.2) ∨ (c.lookup ms k v).1 = v :=
   lookup_value ms c k v
+
+/-! ## 7. The caller's `plugin_options` dict (D19c, repaired by commit 6b35a3e) -/
+
+/-- **caller_plugin_options_untouched**: `generate` copies the dict before it stores the recipe's
+    version — whatever the caller passed and whatever the recipe declares, the caller's dict is what it was -/
+theorem caller_plugin_options_untouched (caller : Dict) (version : Option Int) :
+    (prepareOptions true caller version).1 = caller := by
+  simp [prepareOptions]
+
+/-- **dialect_independent_of_earlier_calls**: an application that passes ONE dict to any number of calls
+    gets, for every call, the dialect that call would have had with the original dict -/
+theorem dialect_independent_of_earlier_calls (d : Dict) (vs : List (Option Int)) :
+    dialects true d vs = vs.map (fun v => dialectOf (prepareOptions true d v).2) := by
+  induction vs with
+  | nil => rfl
+  | cons v vs ih => simp only [dialects, List.map_cons, caller_plugin_options_untouched, ih]
+
+/-- the recipe's declared version is what the run uses -/
+theorem declared_version_wins (copies : Bool) (caller : Dict) (v : Int) :
+    dialectOf (prepareOptions copies caller (some v)).2 = v := by
+  simp [prepareOptions, dialectOf, Dict.set, Dict.get?]
+
+/-- the old behaviour (`plugin_options or {}`, `copies = false`): a version-3 recipe followed by a
+    recipe without declaration, one dict `{"pid": 5}` — the second call ran under version 3 -/
+theorem old_behaviour_leaked_dialect :
+    dialects false [("pid", 5)] [some 3, none] = [3, 3] ∧ dialects true [("pid", 5)] [some 3, none] = [3, 2] := by
+  constructor <;> decide
 
 end SnowModel.Props.C19
